@@ -600,6 +600,15 @@ def run(chk):
                         "next blocking point, no re-invocation after exit without PT_INIT (the generator stays inside this scope)",
                         "ev/cond/child are uninterpreted: cond() in {0, non-zero}, child() in the four pt_state_t values",
                         "all bodies of the generator's statement language up to the stated size, not all C programs"]
+    run_rules(chk, progs)
+
+
+def run_rules(chk, progs=None, limit=None):
+    """The translation validation itself; also imported (with a smaller program set) by checks of code written with the macros."""
+    if progs is None:
+        progs = programs("quick", chk.seed)
+    if limit:
+        progs = progs[:limit]
     n_total = n_ok = 0
     mismatches = 0
     for variant in (False, True):
@@ -642,4 +651,4 @@ def run(chk):
     chk.extra["programs"] = n_total
     chk.extra["disagreements_checked"] = mismatches
     chk.extra["bisimilar"] = n_ok
-    chk.expect("V1", "generated programs", n_total, 200)
+    chk.expect("V1", "generated programs", n_total, 200 if not limit else min(limit, 100))
